@@ -2,7 +2,7 @@
     stay Coq datatypes; no Extract Constant). Run coqc from the ocaml/ directory. *)
 Require Extraction.
 Require Import ExtrOcamlBasic.
-From IAVL Require Import Bytes Varint Sha256 Tree VMap MTree KV Iter ExportImport Codec Diff Store Ics23 VersionFacts.
+From IAVL Require Import Bytes Varint Sha256 Tree VMap MTree KV Iter ExportImport Codec Diff Store Ics23 VersionFacts PruneAlgo.
 
 Definition m_step := MTree.step sha256.
 Definition m_init := MTree.init_state.
@@ -11,6 +11,7 @@ Definition imp_run_sha := ExportImport.imp_run sha256.
 Definition commit_ops_sha := Store.commit_ops sha256.
 Definition get_proof_sha := Ics23.get_proof sha256.
 Definition cimp_run_sha := ExportImport.cimp_run sha256.
+Definition prune_forest_sha := PruneAlgo.prune_forest sha256.
 
 Extraction "model.ml" m_step m_init bcmp sha256 uvarint_enc uvarint_dec varint_enc varint_dec
   bytes_enc bytes_dec be_enc be_dec
@@ -21,4 +22,5 @@ Extraction "model.ml" m_step m_init bcmp sha256 uvarint_enc uvarint_dec varint_e
   Codec.node_key_bytes Codec.classify_root Codec.fast_storage_label Codec.db_node_key Codec.db_fast_key Codec.db_meta_key
   Codec.root_ref_value
   Diff.extract Diff.net Store.expected_store Store.expected_fast commit_ops_sha
-  get_proof_sha Ics23.marshal_commitment_proof VersionFacts.in_contractb.
+  get_proof_sha Ics23.marshal_commitment_proof VersionFacts.in_contractb
+  prune_forest_sha PruneAlgo.phys_of PruneAlgo.rekeyed.
